@@ -54,14 +54,14 @@ func (cf ConfSpec) YAML() string {
 			}
 			b.WriteString("    keys:\n")
 			for _, k := range s.Keys {
-				fmt.Fprintf(&b, "      - id: %s\n        cipher: %s\n        secret: %s\n", k.ID, k.Cipher, k.Secret)
+				fmt.Fprintf(&b, "      - id: %s\n        cipher: %s\n        secret: %q\n", k.ID, k.Cipher, k.Secret)
 			}
 		}
 	}
 	if len(cf.Legacy) > 0 {
 		b.WriteString("keys:\n")
 		for _, k := range cf.Legacy {
-			fmt.Fprintf(&b, "  - id: %s\n    port: %d\n    cipher: %s\n    secret: %s\n", k.ID, k.Port, k.Cipher, k.Secret)
+			fmt.Fprintf(&b, "  - id: %s\n    port: %d\n    cipher: %s\n    secret: %q\n", k.ID, k.Port, k.Cipher, k.Secret)
 		}
 	}
 	if b.Len() == 0 {
